@@ -192,15 +192,11 @@ theorem parseNormalHeader_lines (l0 l1 l5 l6 rest xmin xmax : Txt)
     pySplitN_hit _ _ _ _ (nl_not_mem_kv _ _ (by decide) hmin),
     pySplitN_hit _ _ _ _ (nl_not_mem_kv _ _ (by decide) hmax),
     pySplitN_hit _ _ l5 _ h5, pySplitN_hit _ _ l6 _ h6, pySplitN_zero]
-  have e4 : getNeg [l0, l1, [], kv (t "xmin ") xmin, kv (t "xmax ") xmax, l5, l6, rest] 4 = .ok (kv (t "xmax ") xmax) := by
-    simp [getNeg]; rfl
-  have e5 : getNeg [l0, l1, [], kv (t "xmin ") xmin, kv (t "xmax ") xmax, l5, l6, rest] 5 = .ok (kv (t "xmin ") xmin) := by
-    simp [getNeg]; rfl
-  have e1 : getNeg [l0, l1, [], kv (t "xmin ") xmin, kv (t "xmax ") xmax, l5, l6, rest] 1 = .ok rest := by
-    simp [getNeg]; rfl
-  simp only [objectType, List.getElem?_cons_succ, List.getElem?_cons_zero, e1, e4, e5, bind, Except.bind, pure, Except.pure]
+  simp only [objectType, getIdx, List.getElem?_cons_succ, List.getElem?_cons_zero, List.length_cons, List.length_nil,
+    List.getD_cons_succ, List.getD_cons_zero, bind, Except.bind, pure, Except.pure]
   unfold kv
   rw [lastAfterEq _ xmax (by decide) hmax, lastAfterEq _ xmin (by decide) hmin]
+  simp
 
 /-! ## the sniff `"xmin" in data[:100]` -/
 
@@ -516,16 +512,11 @@ theorem pointobj_long_2d (p : PO) (h : Long.Ok2 p) (hne : p.rows ≠ []) : open2
   rw [hmap]
   rcases hc with rfl | rfl <;> rfl
 
-/-- a defect of `open2DPointObject` reproduced by the model: with no `points [1]:` row, `split("\n", 7)` has
-one element fewer, the header rows are counted from the end, and `float("")` (the blank line) raises -/
-theorem pointobj_long_2d_empty_fails :
-    open2D (PO.longText ⟨t "PitchTier", t "0", t "1.5", []⟩ true) = .error PyErr.valueError :=
-  Long.isErr_eq _ _ (by decide)
-
-/-- the same defect for every well-formed empty PitchTier / DurationTier: `chunkedData` has 7 elements,
-`chunkedData[-4]` is the `xmin` row (read as `maxT`), `chunkedData[-5]` is the blank line and `float("")` raises -/
-theorem pointobj_long_2d_empty_fails_all (p : PO) (h : Long.Ok2 p) (he : p.rows = []) :
-    open2D (p.longText true) = .error PyErr.valueError := by
+/-- **the empty 2-D object in the long layout** (`points: size = 0` and nothing after it) opens to the empty
+object.  Before /repo commit 3bc936d the header rows were counted from the end of `split("\n", 7)`, which
+has one element fewer here, and `float("")` raised ValueError (former known finding C19-empty2d-long). -/
+theorem pointobj_long_2d_empty (p : PO) (h : Long.Ok2 p) (he : p.rows = []) :
+    open2D (p.longText true) = .ok p := by
   obtain ⟨cls, xmin, xmax, rows⟩ := p
   obtain ⟨hc, hmin, hmax, -⟩ := h
   simp only at hc hmin hmax he
@@ -551,26 +542,27 @@ theorem pointobj_long_2d_empty_fails_all (p : PO) (h : Long.Ok2 p) (he : p.rows 
     pySplitN_hit _ _ _ _ (Long.nl_not_mem_kv _ _ (by decide) hmin),
     pySplitN_hit _ _ _ _ (Long.nl_not_mem_kv _ _ (by decide) hmax),
     pySplitN_hit _ _ _ _ (by decide), pySplitN_no _ _ [] (by simp)]
-  have e4 : ∀ l0 l1 l5 : Txt, getNeg [l0, l1, [], Long.kv (t "xmin ") xmin, Long.kv (t "xmax ") xmax, l5, []] 4
-      = .ok (Long.kv (t "xmin ") xmin) := by
-    intro l0 l1 l5; simp [getNeg]; rfl
-  have e5 : ∀ l0 l1 l5 : Txt, getNeg [l0, l1, [], Long.kv (t "xmin ") xmin, Long.kv (t "xmax ") xmax, l5, []] 5
-      = .ok [] := by
-    intro l0 l1 l5; simp [getNeg]; rfl
-  have e1 : ∀ l0 l1 l5 : Txt, getNeg [l0, l1, [], Long.kv (t "xmin ") xmin, Long.kv (t "xmax ") xmax, l5, []] 1
-      = .ok [] := by
-    intro l0 l1 l5; simp [getNeg]; rfl
-  simp only [objectType, List.getElem?_cons_succ, List.getElem?_cons_zero, e1, e4, e5, bind, Except.bind, pure, Except.pure]
+  simp only [objectType, getIdx, List.getElem?_cons_succ, List.getElem?_cons_zero, List.length_cons, List.length_nil,
+    bind, Except.bind, pure, Except.pure]
   unfold Long.kv
-  rw [Long.lastAfterEq _ xmin (by decide) hmin]
-  have : floatTok (stripList ((pySplit '=' []).getLast?.getD [])) = .error PyErr.valueError := by
-    have e : stripList ((pySplit '=' []).getLast?.getD []) = [] := by decide
-    have f : fclass [] = none := by decide
-    rw [e]; unfold floatTok; rw [f]; rfl
-  simp only [this]
+  rw [Long.lastAfterEq _ xmax (by decide) hmax, Long.lastAfterEq _ xmin (by decide) hmin]
+  have hot := Long.objectType_cls cls hcls
+  have h7 : ¬ (7 < 0 + 1 + 1 + 1 + 1 + 1 + 1 + 1) := by decide
+  simp only [h7, if_false, hot, List.length_nil, long2DLoop, pyFind, findAt, Nat.not_lt_zero, List.drop_zero]
+  rcases hc with rfl | rfl <;> rfl
 
-#guard Long.isErr .valueError (open2D (PO.longText ⟨t "PitchTier", t "0", t "1.5", []⟩ true))
-#guard Long.isErr .valueError (open2D (PO.longText ⟨t "DurationTier", t "0", t "1.5", []⟩ true))
+/-- the long layout of a 2-D object opens to the same object, **for every number of points** -/
+theorem pointobj_long_2d_all (p : PO) (h : Long.Ok2 p) : open2D (p.longText true) = .ok p := by
+  by_cases he : p.rows = []
+  · exact pointobj_long_2d_empty p h he
+  · exact pointobj_long_2d p h he
+
+#guard match open2D (PO.longText ⟨t "PitchTier", t "0", t "1.5", []⟩ true) with
+  | .ok q => decide (q = ⟨t "PitchTier", t "0", t "1.5", []⟩)
+  | _ => false
+#guard match open2D (PO.longText ⟨t "DurationTier", t "0", t "1.5", []⟩ true) with
+  | .ok q => decide (q = ⟨t "DurationTier", t "0", t "1.5", []⟩)
+  | _ => false
 
 #guard match open1D (PO.longText ⟨t "PointProcess", t "0", t "1.5", [[t "0.25"], [t "1e-05"]]⟩ false) with
   | .ok q => decide (q = ⟨t "PointProcess", t "0", t "1.5", [[t "0.25"], [t "1e-05"]]⟩)
